@@ -6,6 +6,7 @@ import re
 
 from . import core
 from .core import Case
+from .policygen import mix
 
 START_DEFAULT = 946684800000000000
 CB = re.compile(r"^(exit|evict|reject|done):")
@@ -96,9 +97,9 @@ class Gen:
             ignore = False
             max_cost = 100 + 5 * self.item_size
             lo, hi = 25, 60
-        keys = [(h, 10 * h) for h in range(1, nkeys + 1)]
+        keys = [(mix(h), 10 * h) for h in range(1, nkeys + 1)]
         if profile == "collide":
-            keys = [(1, 10), (1, 11), (2, 20), (2, 0), (3, 30), (3, 31), (4, 40)]
+            keys = [(mix(1), 10), (mix(1), 11), (mix(2), 20), (mix(2), 0), (mix(3), 30), (mix(3), 31), (mix(4), 40)]
         hashes = sorted({h for h, _ in keys})
 
         def ests():
@@ -107,7 +108,7 @@ class Gen:
                 rng.shuffle(vals)
             else:
                 vals = [rng.randrange(1, 15) for _ in hashes]
-            return [["est", h, v] for h, v in zip(hashes, vals)]
+            return [["est", h, v] for h, v in zip(hashes, vals)] + [["estcheck", h] for h in hashes]
         ops += ests()
         pending_sets = 0
         n_ops = rng.randrange(10, 70)
